@@ -62,6 +62,12 @@ def job_solver(job):
             for row, pl in zip(d["transition_list"], d["players"]):
                 if pl == "Probabilistic":
                     row[:] = [(1 if p == 1.0 else p, t) for p, t in row]
+    rmul = 2 ** int(job["rmulpow"]) if job.get("rmulpow") else 1
+    if rmul != 1:
+        # rewards of twenty-odd digits: every reward times 2**k (exact in floating point, and so is
+        # every operation of the solver on them); what comes back is divided by 2**k again
+        for d in pydescs:
+            d["rewards"][:] = [r * rmul for r in d["rewards"]]
     # a log level of DEBUG switches on code that normally never runs (the worker is long-lived:
     # the level is set for every job)
     root = logging.getLogger()
@@ -178,6 +184,9 @@ def job_solver(job):
         prev_raised = False
         try:
             fs, rs, rew, prob, nit, nit2, aux1, aux2 = result
+            if rmul != 1:
+                rew = [x / rmul for x in rew]
+                aux2 = [x / rmul for x in aux2]
             emit({"e": "Return",
                   "fstrat": obs.strats(fs), "rstrat": obs.strats(rs),
                   "rew": obs.nums(rew), "prob": obs.nums(prob),
